@@ -247,6 +247,32 @@ func runC12(c *Ctx, r *Run) {
 		r.Check("SYM-1", name+"|symmetric-residue", c.Pos(dec.Pos()), ok, "the plaintext is returned as the symmetric residue modulo N", "Dec does not end in SetModSymmetric(·, N): plaintexts above N/2 are not mapped back to negative values")
 	}
 
+	// ALIAS-R: callers raise, multiply and reduce the results of Exp/ExpI in place (c.ModMul(c, …), nonce.Exp(…)): what
+	// these functions return is a new number on every path, never an operand or a cached field
+	r.Rule("ALIAS-R", "Modulus.Exp / ExpI return a fresh number on every path (callers mutate the result in place)")
+	{
+		pur := newPurity(c)
+		for _, mn := range []string{"Exp", "ExpI"} {
+			fn := c.LookupMethod("pkg/math/arith", "Modulus", mn)
+			if fn == nil {
+				r.Unresolved("ALIAS-R", "pkg/math/arith.(*Modulus)."+mn)
+				continue
+			}
+			r.Analysed(c.FuncName(fn))
+			bad := ""
+			for _, ret := range returnsOf(fn) {
+				if len(ret.Results) != 1 {
+					continue
+				}
+				if k, _ := pur.root(fn, ret.Results[0], 0); k != rootLocal {
+					bad = c.Pos(ret.Pos()) + " returns " + path(ret.Results[0])
+				}
+			}
+			r.Check("ALIAS-R", c.FuncName(fn)+"|returns-fresh", c.Pos(fn.Pos()), bad == "", "every return yields a number created inside the function",
+				"the return at "+bad+", an operand or shared object: callers such as EncWithNonce / DecWithRandomness / pedersen.Commit continue to compute IN PLACE on the result, so they overwrite the caller's value or a cached key field (N+1) and every later operation with that key is wrong")
+		}
+	}
+	r.Require("ALIAS-R", 2)
 	checkCapacities(c, r, "CAP-1")
 	r.Require("CAP-1", 15)
 	// ---- CRT-1
